@@ -33,6 +33,18 @@ fn bitmap3_pdu(k: u64) -> Vec<u8> {
     rp::fast_path(&[rp::FpUpdate::Bitmap(vec![r(k), r(k + 1), r(k + 2)])], false, 0)
 }
 
+/// a slow-path PDU that produces no event for the application
+fn ctl_pdu(name: &str) -> Vec<u8> {
+    match name {
+        "da" => rp::demand_active(SHARE, &rp::server_caps(1)),
+        "sync" => rp::synchronize(SHARE, 1002),
+        "coop" => rp::control(SHARE, 4, 0, 0),
+        "granted" => rp::control(SHARE, 2, 1004, 1002),
+        "fontmap" => rp::font_map(SHARE),
+        _ => rp::set_error_info(SHARE, 0),
+    }
+}
+
 fn bitmap_pdu(k: u64) -> Vec<u8> {
     rp::fast_path(&[rp::FpUpdate::Bitmap(vec![rp::Rect { l: k as u16, t: 0, r: k as u16, b: 0, w: 1, h: 1, bpp: 32, flags: 0, data: vec![k as u8, 0, 0, 0] }])], false, 0)
 }
@@ -65,9 +77,28 @@ fn run_scenario(sc: &Value, out: &mut dyn Write) {
     let client = Connector::new().screen(800, 600).credentials("d".into(), "u".into(), "p".into()).use_nla(false).check_certificate(false).connect(csock);
     let mut io = match server.join().ok().flatten() { Some(io) => io, None => { ev!(json!({"ev": "harness_error", "what": "server side of connect failed"})); return; } };
     let mut client = match client { Ok(c) => c, Err(e) => { ev!(json!({"ev": "harness_error", "what": format!("connect failed {:?}", e)})); return; } };
-    // activation, synchronously
+    // activation, synchronously - unless the scenario leaves it to the receive thread
+    let late = sc.get("late_activation").and_then(|x| x.as_bool()).unwrap_or(false);
+    if !late {
     for f in [rp::demand_active(SHARE, &rp::server_caps(1)), rp::synchronize(SHARE, 1002), rp::control(SHARE, 4, 0, 0), rp::control(SHARE, 2, 1004, 1002), rp::font_map(SHARE)].iter() {
         if io.send(f, "").is_err() || client.read(|_| {}).is_err() { ev!(json!({"ev": "harness_error", "what": "activation failed"})); return; }
+    }
+    }
+    // preload: one TLS record sent before the thread exists; its first PDU is read here, the rest stays decrypted inside
+    // the TLS layer and must be picked up by the thread without any further server traffic
+    let mut pre_sent: Vec<u64> = Vec::new();
+    if let Some(pdus) = sc.get("preload").and_then(|x| x.as_array()) {
+        let mut bytes = Vec::new();
+        for p in pdus {
+            match p[0].as_str().unwrap_or("") {
+                "ctl" => bytes.extend(ctl_pdu(p[1].as_str().unwrap_or(""))),
+                "bmp" => { let k = p[1].as_u64().unwrap_or(0); bytes.extend(bitmap_pdu(k)); pre_sent.push(k); }
+                _ => {}
+            }
+        }
+        let _ = io.send(&bytes, "");
+        ev!(json!({"ev": "srv_record", "pdus": pdus}));
+        if client.read(|_| {}).is_err() { ev!(json!({"ev": "harness_error", "what": "preload read failed"})); return; }
     }
     io.recv_pending();
     io.events.clear();
@@ -79,7 +110,7 @@ fn run_scenario(sc: &Value, out: &mut dyn Write) {
     let (jtx, jrx) = mpsc::channel::<bool>();
     thread::spawn(move || { let ok = handle.join().is_ok(); let _ = jtx.send(ok); });
     let mut fwd: Vec<u64> = Vec::new();
-    let mut sent: Vec<u64> = Vec::new();
+    let mut sent: Vec<u64> = pre_sent;
     let mut joined: Option<bool> = None;
     let quiet_ms = sc.get("quiet_ms").and_then(|x| x.as_u64()).unwrap_or(400);
     // collect what arrives until `want` bitmaps are there or nothing moved for quiet_ms
@@ -107,6 +138,7 @@ fn run_scenario(sc: &Value, out: &mut dyn Write) {
                 let full = bitmap_pdu(k);
                 match kind {
                     "bmp" => { bytes.extend(&full); sent.push(k); }
+                    "ctl" => bytes.extend(ctl_pdu(p.get(1).and_then(|x| x.as_str()).unwrap_or(""))),
                     "bmp3" => { bytes.extend(&bitmap3_pdu(k)); sent.push(k); sent.push(k + 1); sent.push(k + 2); }
                     "part1" => bytes.extend(&full[..full.len() / 2]),
                     "part2" => { bytes.extend(&full[full.len() / 2..]); sent.push(k); }
@@ -117,6 +149,10 @@ fn run_scenario(sc: &Value, out: &mut dyn Write) {
             io.events.clear();
             ev!(json!({"ev": "srv_record", "pdus": pdus}));
             if step.get("nowait").and_then(|x| x.as_bool()).unwrap_or(false) { continue; }
+            let ms = settle(&mut fwd, sent.len());
+            ev!(json!({"ev": "quiet", "fwd": fwd, "after_ms": ms as u64}));
+        } else if step.get("observe").is_some() {
+            // what has been forwarded while the server stays silent
             let ms = settle(&mut fwd, sent.len());
             ev!(json!({"ev": "quiet", "fwd": fwd, "after_ms": ms as u64}));
         } else if let Some(ms) = step.get("pause").and_then(|x| x.as_u64()) {
